@@ -21,9 +21,10 @@ CONSTANTS Start,      \* which creation prefix the room starts from (1 or 2)
 
 VARIABLES E,      \* event store: id -> event record
           after,  \* id -> state (set of ids) after the event
-          last    \* id of the event added by the last step (0 initially)
+          last,   \* id of the event added by the last step (0 initially)
+          before  \* history: the state the last event was sent on top of
 
-vars == <<E, after, last>>
+vars == <<E, after, last, before>>
 
 N == Len(E)
 IdRank(i) == IF IdDesc THEN 100 - i ELSE i
@@ -50,10 +51,15 @@ Prefix2 ==
     << Ev("pl", "creator", "", "", [InitPL EXCEPT !["bob"] = 3], "", {6}, {1, 2, 3}, 7, 1, 7),
        Ev("member", "carol", "carol", "join", NoUsers, "", {7}, {1, 4, 7}, 8, 1, 8) >>
 
-Init == \/ /\ Start = 1 /\ E = Prefix /\ after = [i \in 1..6 |-> 1..i] /\ last = 0
+InitRoom ==
+        \/ /\ Start = 1 /\ E = Prefix /\ after = [i \in 1..6 |-> 1..i] /\ last = 0
         \/ /\ Start = 2 /\ E = Prefix2
            /\ after = [i \in 1..8 |-> IF i <= 6 THEN 1..i ELSE IF i = 7 THEN {1, 2, 4, 5, 6, 7} ELSE {1, 2, 4, 5, 6, 7, 8}]
            /\ last = 0
+
+Init == /\ before = {}
+        /\ InitRoom
+
 
 Base == IF Start = 1 THEN 6 ELSE 8
 
@@ -116,6 +122,7 @@ Send(u, kind, t, lvl, rule, prevs, ts, S) ==
           /\ E' = E2
           /\ after' = Append(after, ApplyTo(E2, S, i))
           /\ last' = i
+          /\ before' = S
 
 Antichains ==
     LET ids == {x \in DOMAIN E : x >= ForkFrom} IN
@@ -152,6 +159,10 @@ PairOK(a, b, R) ==
          ((\E x \in after[a] : KeyOf(E, x) = <<"member", u>> /\ E[x].membership = "ban")
             /\ (\E y \in after[b] : KeyOf(E, y) = <<"member", u>> /\ E[y].membership = "ban"))
          => ~(\E r \in R : KeyOf(E, r) = <<"member", u>> /\ E[r].membership = "join")
+
+\* C08 along room histories: every power-levels event an honest server sends (i.e. that the rules accept on
+\* top of the state it was sent on) satisfies the no-escalation invariant
+HistoryNoEsc == (last # 0 /\ E[last].type = "pl") => NoEsc(Ver, StOf(E, before), EvOf(E, last))
 
 ResolutionOK == \A p \in ForkPairs : PairOK(p[1], p[2], Resolve(E, Ver, <<after[p[1]], after[p[2]]>>))
 =============================================================================
